@@ -143,6 +143,9 @@ void dsim_scenario() {
         if (sc.kind[k] == AWAIT_SELF && coroutine_consumer) { bool ok = true; for (int i = 0; i < 12; i++) if (style[i] % 3 == 0) ok = false; if (!ok) sc.kind[k] = AWAIT_OTHER; }
         // ... and it must be reachable from the call without another thread's help: no 'await other' since the last yield
         if (sc.kind[k] == AWAIT_SELF) { for (int j = k - 1; j >= 0 && sc.kind[j] != Y; j--) if (sc.kind[j] == AWAIT_OTHER) sc.kind[k] = AWAIT_OTHER; }
+        // a coroutine consumer completes the awaited operation while it is itself running, so the generator only continues (from the ready
+        // queue) once the consumer has suspended in co_await: a second consumer-completed await before the next yield could never be completed
+        if (sc.kind[k] == AWAIT_SELF && coroutine_consumer) { for (int j = k - 1; j >= 0 && sc.kind[j] != Y; j--) if (sc.kind[j] == AWAIT_SELF) sc.kind[k] = AWAIT_OTHER; }
         sc.val[k] = sc.kind[k] == THROW ? 900 + k : v++;
     }
     Expect e = expectation();
